@@ -14,7 +14,7 @@ import (
 
 func init() {
 	Registry["C13"] = Set{
-		Explanation: "Decides structural clauses of network FIFO on every frame writer: F1 the link selector handed to send and the receive-queue selector stored in the order byte are pure functions of the sender/receiver identifier (no counter, clock or random leaf); F2 on every path on which KeepNetworkOrder is true (and in writers without that option) the value range of both selectors excludes 0, the round-robin sentinel tested in send and serve — decided with an interval domain over %, &, +, >>, conversions to narrower unsigned types, and one level of helper inlining; a constant 0 is accepted only in the frozen list of writers that have no ordered stream (termination notices, replies addressed by name/event); F3 one worker per receive queue: the producer pushes, then tries the queue lock, and starts the worker only on the lock's success edge with the same queue; the queue index is the order byte modulo the queue count whenever the byte is non-zero; F4 the modulus applied to the link selector for ordered traffic must not change during the connection's life (today it is len(c.pool), which grows while links are joined: known finding F-V).",
+		Explanation: "Decides structural clauses of network FIFO on every frame writer: F1 the link selector handed to send and the receive-queue selector stored in the order byte are pure functions of the sender/receiver identifier (no counter, clock or random leaf); F2 on every path on which KeepNetworkOrder is true (and in writers without that option) the value range of both selectors excludes 0, the round-robin sentinel tested in send and serve — decided with an interval domain over %, &, +, >>, conversions to narrower unsigned types, and one level of helper inlining; a constant 0 is accepted only in the frozen list of writers that have no ordered stream (termination notices, replies addressed by name/event); F3 one worker per receive queue: the producer pushes, then tries the queue lock, and starts the worker only on the lock's success edge with the same queue; the queue index is the order byte modulo the queue count whenever the byte is non-zero; F4 the modulus applied to the link selector for ordered traffic must not change during the connection's life (today it is len(c.pool), which grows while links are joined: known finding F-V). Added while probing: F5 the compression envelope copies the receive-queue selector (byte 6) of the frame it wraps; F6 every options literal a process or meta process builds for a Route{Send,Call}* call sets KeepNetworkOrder from the process's keeporder field.",
 		NotDecided: []string{
 			"relative delay of pooled TCP links",
 			"behaviour after a link is lost and re-dialled",
